@@ -114,6 +114,9 @@ SNext ==
      \/ \E p \in Ids : Rollback(p)
 SSpec == SInit /\ [][SNext]_svars
 SSpecMC == SInitMC /\ [][SNext]_svars
+(* ... explored breadth-first to a bounded number of handler calls *)
+CONSTANT MaxLevel
+LevelBound == TLCGet("level") <= MaxLevel
 
 (* observable projection: the tree's, plus what the Smr exposes *)
 SObs == [ t |-> Obs,
